@@ -32,6 +32,7 @@ def dispatch (line : String) : String :=
     | none => bad "family"
     if fam == "tag" || fam == "sub" then Tags.handle toks impl
     else if fam == "song" then Song.handle toks impl
+    else if fam == "filter" then Filter.handle toks impl
     else bad "family"
   v.render
 
